@@ -4,7 +4,13 @@ package main
 // executable oracle over a fixed family of trees (chains, multi-cause trees, trees without
 // stacks, decoded trees) and compared with what BuildSentryReport returns.
 
+import "strings"
+
 func reportReplay(w *World, o *Obligation, q *Query, _ map[string]string) (string, string) {
+	// frame obligations have their own replay vehicle (race detector / purity)
+	if strings.Contains(o.Name, "#frame.") || strings.Contains(o.Name, "#sframe.") {
+		return "", ""
+	}
 	src := `package errors_test
 
 import (
@@ -48,6 +54,7 @@ func TestVerifReplay(t *testing.T) {
 		"spine-above-join": errors.WithStack(errors.Join(bare("x"), errors.Wrap(leaf("deep"), "mid"))),
 		"wrapped-join":     fmt.Errorf("top: %w", errors.Join(leaf("p"), bare("q"), leaf("r"))),
 		"secondary":        errors.WithSecondaryError(leaf("main"), leaf("second")),
+		"nested-join":      errors.Join(errors.Wrap(errors.Join(leaf("a"), leaf("b")), "ctx"), leaf("c")),
 	}
 	var names []string
 	for name := range trees {
@@ -123,5 +130,5 @@ func TestVerifReplay(t *testing.T) {
 }
 
 func init() {
-	registerReplayFirst(`^report\.BuildSentryReport#|^report\.reverseExceptionOrder#`, reportReplay)
+	registerReplayFirst(`^report\.BuildSentryReport#|^report\.reverseExceptionOrder#|^report\.visitAllMulti#`, reportReplay)
 }
